@@ -33,7 +33,7 @@ IMPORTS = ('From PyRTL Require Import Netlist.Sem Netlist.WFDefs Netlist.SpecHar
            'Pass.LowerHarness.')
 COQ_TARGETS = ['theories/Netlist/SpecHarness.vo', 'theories/Pass/LowerHarness.vo']
 TRUSTED = ['Pass/Lower.v postcondition predicates (post_*: allowed op sets, concat arity <= 2, one-index '
-           'selects, no non-truncating w-net before an Output whose source has no other reader and an eligible (non '@'/'r') producer, fan-out <= 2) as the reading of the '
+           'selects, no non-truncating w-net before an Output whose source has no other reader and an eligible (not @ / r) producer, fan-out <= 2) as the reading of the '
            'pass docstrings',
            'Netlist/Sanity.v sanity_block as the reading of Block.sanity_check (C10)']
 ASSUMPTIONS = ['ROM contents are tabulated at dump time',
